@@ -92,9 +92,12 @@ MAPRANGE_PKGS = ["./internal/linker", "./internal/bundler", "./pkg/api", "./inte
                  "./internal/js_printer", "./internal/css_printer", "./internal/renamer"]
 
 
-def run_extract(with_mapranges=False):
+def run_extract(with_mapranges=False, with_identtables=False):
     with Lock("lake"):
         rc, out, err = sh([os.path.join(BIN, "extract"), REPO, GEN], timeout=300)
+        if rc == 0 and with_identtables:
+            # the identifier range tables and keyword tables, dumped from the real js_ast / js_lexer packages
+            rc, out, err = sh([os.path.join(BIN, "identtables"), os.path.join(GEN, "IdentTables.lean")], env=GOENV, timeout=600)
         if rc == 0 and with_mapranges:
             # type-checked facts (go/packages): every `for ... range <map>` loop of the build pipeline
             rc, out, err = sh([os.path.join(BIN, "mapranges"), REPO, os.path.join(GEN, "MapRanges.lean")] + MAPRANGE_PKGS,
@@ -393,7 +396,8 @@ def main(argv):
     audit_res = {}
     lean_err = None
     if not tools.get("extract"):
-        e = run_extract(with_mapranges=("mapranges" in cfg.get("binaries", []) and not tools.get("mapranges")))
+        e = run_extract(with_mapranges=("mapranges" in cfg.get("binaries", []) and not tools.get("mapranges")),
+                        with_identtables=("identtables" in cfg.get("binaries", []) and not tools.get("identtables")))
         if e:
             broken.append({"kind": "tie", "name": "fact extraction from /repo failed", "detail": e})
     if not args.only_search:
